@@ -13,6 +13,7 @@ var props = map[string]func(tier string) []Scen{
 	"C01": scenariosC01,
 	"C10": scenariosC10,
 	"C14": scenariosC14,
+	"C17": scenariosC17,
 	"C15": scenariosC15,
 	"C16": scenariosC16,
 }
@@ -23,11 +24,13 @@ var rules = map[string]string{
 	"C01": ruleA + "; scenarios = call scripts (target x flags x handler reply script) on 1-3 connections x segmentations of the request bytes; per connection the frames received and the handler invocation log are compared with a sequential reference model of that connection alone",
 	"C10": ruleA + "; scenarios = frame-kind sequences (valid calls, wrong-shape JSON, invalid JSON, empty frame, 5 KiB frame, unterminated tail) x the byte offset at which the client stops x how it goes away (half-close, close, abort) x injected reply-write failure, with a well-behaved probe connection and a final Shutdown; schedule deviations are explored at frame-boundary offsets",
 	"C14": ruleA,
+	"C17": ruleA + "; scenarios = sequences of <=3 operations {ReadBytes, raw Read, Write} on a ctxio connection, the first 1-2 under a cancellable context x cancel|deadline x 3 segmentations of the peer stream x a coarse gate (operation index, chunks written) after which the cancellation step becomes enabled; the scheduler then places the cancellation (and, for deadlines, the connection's own deadline expiry, in both orders) at every point within the bound",
 	"C16": ruleA + "; in every execution a vector-clock happens-before monitor (edges: spawn, thread end->WaitGroup.Wait, Unlock->Lock, channel send->receive, cancel->observing Done, peer write->read, SetDeadline/Close->the I/O they fail) checks every instrumented read/write of a field of a struct declared in packages varlink/ctxio (fields never written after construction are skipped) for a conflicting HB-unordered access",
 	"C15": ruleA + "; accept-deadline expiries are events of a timer thread, enabled whenever the controlled listener is armed, so the explorer places each expiry at every instant",
 }
 
 var assumptions = map[string][]string{
+	"C17": {"vnet.Conn implements the documented net.Conn deadline semantics (a deadline in the past fails pending and future I/O with a Timeout error, the zero deadline clears it); whether a real transport does is the subject of the separate transport matrix", "a context deadline is a far-future time plus two events: the context expiring and the connection deadline firing", "stream oracle: bytes may be lost only if they had arrived before a cancelled operation returned"},
 	"C10": {"classifyCall restates 'a JSON value of the call's shape' with encoding/json used only as a generic decoder", "when the peer has closed or aborted, what was answered and dispatched must be a prefix of the reference (how far the service got is schedule dependent); with a half-close it must equal the reference", "vnet: abort discards unread data and fails reads with ECONNRESET, writes to a closed or aborted peer fail with EPIPE"},
 	"C01": {"reference model refConn restates the property text (call order, accepted reply attempts only, oneway silence, continues needs more, handler error ends the connection)", "clients are raw byte writers that half-close after their script, so reply writes never fail", "vnet semantics and scheduling-point sufficiency as for C14"},
 	"C16": {"only accesses vinstr instruments are monitored: selector expressions naming fields of struct types declared in packages varlink and ctxio, method calls through pointer-to-struct fields (e.g. the bufio.Reader), package-level variables; memory touched only inside the standard library is not seen", "the list of happens-before edges is complete for the primitives the library uses (sync.Mutex/WaitGroup, buffered channels, context, net.Conn/net.Listener internal locking)", "intended concurrent use = API operations issued after the serving call has been entered; one goroutine at a time per client connection"},
